@@ -52,6 +52,24 @@ def main():
     finally:
         sh('git -C /repo checkout -- .')
         sh('git -C /repo clean -fdq -- plasTeX')
+    if '--keep' in flags:
+        import shutil
+        name = meta['property']
+        dst = os.path.join(VERIF, 'seeded', name)
+        k = 1
+        while os.path.exists(dst):
+            k += 1
+            dst = os.path.join(VERIF, 'seeded', '%s-%d' % (name, k))
+        os.makedirs(dst)
+        for f in ('patch.diff', 'demo.py'):
+            shutil.copy(os.path.join(d, f), dst)
+        meta['verified_by_pvmon'] = {
+            'demo_exit_on_unchanged_tree': res.get('demo_unchanged_rc'), 'demo_exit_with_patch': res.get('demo_patched_rc'),
+            'pinned_suite_passes_with_patch': res.get('baseline_ok'),
+            'what_was_run': 'tools/try_seed.py: git -C /repo apply patch.diff; demo.py; tools/baseline_off.sh; ./check <id> --tier %s; git -C /repo checkout -- .' % tier,
+            'checks': res['checks']}
+        json.dump(meta, open(os.path.join(dst, 'meta.json'), 'w'), indent=1)
+        res['kept_as'] = dst
     print(json.dumps(res, indent=1))
     return 0
 
